@@ -33,11 +33,12 @@ class LoopFrameGrow(Exception):
 
 
 class Obligation:
-    __slots__ = ('kind', 'name', 'clause', 'pc', 'goal', 'path', 'line', 'func', 'config', 'entry')
+    __slots__ = ('kind', 'name', 'clause', 'pc', 'goal', 'path', 'line', 'func', 'config', 'entry', 'cases')
 
     def __init__(self, kind, name, clause, pc, goal, path, line, func, config, entry):
         self.kind, self.name, self.clause, self.pc, self.goal = kind, name, clause, pc, goal
         self.path, self.line, self.func, self.config, self.entry = path, line, func, config, entry
+        self.cases = None
 
 
 class Frame:
@@ -150,7 +151,7 @@ class Engine(ExprMixin, StmtMixin, CallMixin):
                 self.st.pc.append(x)
 
     # ------------------------------------------------------------------ obligations
-    def oblige(self, kind, name, goal, clause=None, node=None):
+    def oblige(self, kind, name, goal, clause=None, node=None, cases=None):
         if isinstance(goal, bool):
             goal = z3.BoolVal(goal)
         g = goal
@@ -166,8 +167,9 @@ class Engine(ExprMixin, StmtMixin, CallMixin):
         if key in self.ob_seen:
             return
         self.ob_seen.add(key)
-        self.obligations.append(Obligation(kind, name, clause or name, list(self.st.pc), g, self.path_no, line, top.fname,
-                                           self.config, top.entry))
+        ob = Obligation(kind, name, clause or name, list(self.st.pc), g, self.path_no, line, top.fname, self.config, top.entry)
+        ob.cases = cases
+        self.obligations.append(ob)
 
     # ------------------------------------------------------------------ frames, scopes
     @property
